@@ -58,11 +58,11 @@ CHECKS = {
    note=TB + 'PARTIAL: antisymmetry up to dict equivalence and the agreement flatten_up_to <-> is_prefix <-> prefix_errors (three separately written implementations, one in Python) are NOT proved in Coq; they are decided by the differential run (tree-level model vs the C++ index walks incl. the sibling re-ordering block, and the Python prefix_errors).',
    design='§7 C07'),
  'C09': dict(
-   technique='Coq proof (the join is an upper bound in the prefix order, by induction over treespecs with key-aligned dict children; node-level laws) + extracted-model correspondence of full result arrays and of the Python broadcast family + lattice-law oracle',
-   text='Theorems: whenever broadcast_to_common_suffix succeeds, BOTH operands are prefixes of the result (C09_join_is_upper_bound, for all treespecs satisfying the side conditions that C09_flatten_gives_good_treespecs proves for everything flatten produces); a leaf is replaced by the other operand\'s subtree on either side; where both operands are internal nodes the result carries the first operand\'s kind, key order, custom path entries, registration and original keys; '
+   technique='Coq proof (the join is the LEAST upper bound in the prefix order: upper bound and minimality, each by induction over treespecs with key-aligned dict children; node-level laws) + extracted-model correspondence of full result arrays and of the Python broadcast family + lattice-law oracle',
+   text='Theorems: whenever broadcast_to_common_suffix succeeds, BOTH operands are prefixes of the result (C09_join_is_upper_bound, for all treespecs satisfying the side conditions that C09_flatten_gives_good_treespecs proves for everything flatten produces), and whenever the operands have ANY common upper bound u the broadcast succeeds and its result is a prefix of u (C09_join_is_least) — so it computes the least upper bound and fails only when there is none; a leaf is replaced by the other operand\'s subtree on either side; where both operands are internal nodes the result carries the first operand\'s kind, key order, custom path entries, registration and original keys; '
         'option mismatches raise ValueError; the result namespace is the documented merge. The run compares broadcast_to_common_suffix in both argument orders (entire node arrays incl. node_entries and original_keys), '
         'tree_broadcast_prefix, broadcast_prefix, tree_broadcast_common and broadcast_common with the model, and checks upper bound, order independence up to dict kind/order, idempotence, prefix-absorption, operands unchanged, the path-prefix law and tree_broadcast_map on the implementation.',
-   note=TB + 'PARTIAL: "least" (minimality of the upper bound) and two-pass sufficiency for n trees are not proved in Coq (idempotence / absorption / minimality against the operands are checked by the oracle on every generated pair).',
+   note=TB + 'Least-upper-bound is proved at the level of structured treespecs (st_join / st_prefix); the treespec-level wrapper adds the none_is_leaf / namespace checks (C09_broadcast_option_errors, C09_broadcast_namespace). Two-pass sufficiency of the Python n-ary broadcast for n trees is checked by the oracle, not proved.',
    design='§7 C09'),
  'C10': dict(
    technique='Coq proof (list lemma on chunks/zip for all m, n) + extracted-model correspondence + oracle on the transpose_map family',
